@@ -2,7 +2,8 @@
    (nil flag, spare capacity; spare cells are poisoned with 99 by the harness) and a sequence of method
    calls; every call carries what the REAL code showed on each variant. Per step and variant the checker
    decides (kind 2) whether the observation satisfies the property - pure Spec, no panic, error flag,
-   no aliasing for copying methods, equal observables on all capacity variants - and (kind 1) whether the
+   no aliasing for copying methods, equal observables on all capacity variants, retained slices that are no longer
+   linked to the receiver never change again, capacity where the contents determine it - and (kind 1) whether the
    memory model reproduces it exactly: nil-ness, len, cap, every cell of the capacity window (stale cells
    included), array identity of the receiver, aliasing of the result. *)
 From VF Require Import C06.Model C06.BMap.
@@ -37,7 +38,10 @@ Inductive oval :=
 | OSlice (rnil : bool) (rlen : nat) (rwin : list Z) (alias : bool).
 
 Record robs := { o_panic : bool; o_err : bool; o_val : oval;
-                 o_nil : bool; o_len : nat; o_win : list Z; o_same : bool }.
+                 o_nil : bool; o_len : nat; o_win : list Z; o_same : bool;
+                 (* capacity windows, re-read after this call, of every slice handed over so far: the slice the wrapper
+                    was built from, then every slice a call returned, in order *)
+                 o_ret : list (list Z) }.
 Record step := { st_m : meth; st_obs : list robs }.
 Record bscase := { c_init : list Z; c_vars : list (bool * nat); c_steps : list step }.
 
@@ -65,7 +69,27 @@ Definition prop_variant (m : meth) (c : list Z) (o : robs) : bool :=
   && zl_eqb (o_after o) (pure_recv m c)
   && (about_cap m || negb (search_pre m c) || pval_eqb (oabs (o_val o)) (pure_result m c))
   && Bool.eqb (o_err o) (invalid m (zlength c))
-  && (negb (copying m) || match o_val o with OSlice _ _ _ al => negb al | _ => true end).
+  && (negb (copying m) || match o_val o with OSlice _ _ _ al => negb al | _ => true end)
+  && match pure_cap m c with Some k => Nat.eqb (length (o_win o)) k | None => true end.
+
+(* retained slices: (window when last read, still linked to the receiver). A slice that is not linked - the result of a
+   copying method, or anything handed over before a detaching method - must never change again. *)
+Definition retained := list (list Z * bool).
+Fixpoint ret_unchanged (det : bool) (r : retained) (ws : list (list Z)) : bool :=
+  match r, ws with
+  | [], _ => true
+  | (w, linked) :: t, w' :: t' => ((linked && negb det) || zl_eqb w w') && ret_unchanged det t t'
+  | _ :: _, [] => false
+  end.
+Fixpoint ret_update (m : meth) (r : retained) (ws : list (list Z)) : retained :=
+  match r, ws with
+  | (_, linked) :: t, w' :: t' => (w', linked && negb (detaches m)) :: ret_update m t t'
+  | [], w' :: _ => [(w', negb (copying m))]           (* the slice this call returned *)
+  | _, [] => []
+  end.
+Definition prop_retained (m : meth) (r : retained) (o : robs) : bool :=
+  ret_unchanged (detaches m) r (o_ret o)       (* a detaching method itself leaves everything handed over alone *)
+  && Nat.eqb (length (o_ret o)) (length r + match o_val o with OSlice _ _ _ _ => 1 | _ => 0 end).
 
 (* capacity independence: every variant shows the same observables as the first one *)
 Definition same_observables (m : meth) (a b : robs) : bool :=
@@ -97,8 +121,21 @@ Definition val_matches (h' : heap) (s s' : slice) (v : value) (o : oval) : bool 
   | _, _ => false
   end.
 
-Definition model_variant (m : meth) (st : heap * slice) (o : robs) : bool :=
-  let '(h, s) := st in
+(* one capacity variant: model heap, receiver header, the model's handles on the retained slices, what was seen of them *)
+Record vstate := { vs_h : heap; vs_s : slice; vs_hs : list slice; vs_ret : retained }.
+
+Definition handles_after (hs : list slice) (v : value) : list slice :=
+  match v with VSlice t => hs ++ [t] | _ => hs end.
+
+Fixpoint handles_match (h' : heap) (hs : list slice) (ws : list (list Z)) : bool :=
+  match hs, ws with
+  | [], [] => true
+  | t :: hs', w :: ws' => zl_eqb (fullwin h' t) w && handles_match h' hs' ws'
+  | _, _ => false
+  end.
+
+Definition model_variant (m : meth) (st : vstate) (o : robs) : bool :=
+  let h := vs_h st in let s := vs_s st in
   match bs_call m (oracle_of o) h s with
   | Panic => o_panic o
   | Ok h' s' v e =>
@@ -106,20 +143,20 @@ Definition model_variant (m : meth) (st : heap * slice) (o : robs) : bool :=
       && Bool.eqb (isnil s') (o_nil o) && Nat.eqb (len s') (o_len o)
       && zl_eqb (fullwin h' s') (o_win o) && Nat.eqb (cap s') (length (o_win o))
       && Bool.eqb (same_array s s') (o_same o)
+      && handles_match h' (handles_after (vs_hs st) v) (o_ret o)
   end.
 
-(* only the receiver's array is kept between steps (results are not retained by the harness) *)
-Definition next_state (m : meth) (st : heap * slice) (o : robs) : heap * slice :=
-  let '(h, s) := st in
-  match bs_call m (oracle_of o) h s with
+Definition next_state (m : meth) (st : vstate) (o : robs) : vstate :=
+  match bs_call m (oracle_of o) (vs_h st) (vs_s st) with
   | Panic => st
-  | Ok h' s' _ _ => ([arrOf h' s'], {| arr := 0; off := off s'; len := len s'; cap := cap s'; isnil := isnil s' |})
+  | Ok h' s' v _ => {| vs_h := h'; vs_s := s'; vs_hs := handles_after (vs_hs st) v; vs_ret := ret_update m (vs_ret st) (o_ret o) |}
   end.
 
-Definition init_state (c : list Z) (v : bool * nat) : heap * slice :=
+Definition init_state (c : list Z) (v : bool * nat) : vstate :=
   let '(nl, spare) := v in
-  if nl then ([[]], nil_slice)
-  else ([c ++ repeat 99 spare], {| arr := 0; off := 0; len := length c; cap := length c + spare; isnil := false |}).
+  if nl then {| vs_h := [[]]; vs_s := nil_slice; vs_hs := [nil_slice]; vs_ret := [([], true)] |}
+  else let s := {| arr := 0; off := 0; len := length c; cap := length c + spare; isnil := false |} in
+       {| vs_h := [c ++ repeat 99 spare]; vs_s := s; vs_hs := [s]; vs_ret := [(c ++ repeat 99 spare, true)] |}.
 
 Fixpoint zip_all {A B} (f : A -> B -> bool) (l1 : list A) (l2 : list B) : bool :=
   match l1, l2 with
@@ -130,11 +167,12 @@ Fixpoint zip_all {A B} (f : A -> B -> bool) (l1 : list A) (l2 : list B) : bool :
 Fixpoint zip_map {A B C} (f : A -> B -> C) (l1 : list A) (l2 : list B) : list C :=
   match l1, l2 with a :: t1, b :: t2 => f a b :: zip_map f t1 t2 | _, _ => [] end.
 
-Definition bs_step (sts : list (heap * slice)) (x : step) : list (heap * slice) * nat :=
+Definition bs_step (sts : list vstate) (x : step) : list vstate * nat :=
   let m := st_m x in
-  let c := match sts with (h, s) :: _ => contents h s | [] => [] end in
+  let c := match sts with st :: _ => contents (vs_h st) (vs_s st) | [] => [] end in
   (zip_map (next_state m) sts (st_obs x),
-   kind_of (zip_all (model_variant m) sts (st_obs x)) (prop_step m c (st_obs x))).
+   kind_of (zip_all (model_variant m) sts (st_obs x))
+           (prop_step m c (st_obs x) && zip_all (fun st o => prop_retained m (vs_ret st) o) sts (st_obs x))).
 
 Definition check_bs (c : bscase) : nat :=
   scan bs_step (map (init_state (c_init c)) (c_vars c)) (c_steps c) 0.
